@@ -289,6 +289,40 @@ mut('C11', 'grid', """        result = Grid(version=self.version, metadata=self.
         fn = filter_function(filter)""")
 mut('C11', 'grid_filter', "           hs_number | hs_na | hs_null | hs_marker | hs_bool | \\", "           hs_number | hs_null | hs_na | hs_marker | hs_bool | \\")
 
+# ---- C10 -----------------------------------------------------------------------------
+mut('C10', 'zincdumper', """    elif scalar is NA:
+        if Version.nearest(version) < VER_3_0:
+            raise ValueError('Project Haystack version %s ' \\
+                             'does not support NA' \\
+                             % version)
+        return 'NA'""", """    elif scalar is NA:
+        return 'NA'""", name='zinc writer: NA gate deleted')
+mut('C10', 'jsondumper', """def dump_list(lst, version=LATEST_VER):
+    if Version.nearest(version) < VER_3_0:""", """def dump_list(lst, version=LATEST_VER):
+    if Version.nearest(version) <= VER_3_0:""", name='json dump_list <=')
+mut('C10', 'jsondumper', """def dump_dict(dic, version=LATEST_VER):
+    if Version.nearest(version) < VER_3_0:""", """def dump_dict(dic, version=LATEST_VER):
+    if version < VER_3_0:""", name='revert fix: raw version in dump_dict')
+mut('C10', 'grid', "                or isinstance(val, dict) \\\n", "", name='detect_or_validate forgets dict')
+mut('C10', 'grid', "                or isinstance(val, XStr) \\\n", "", name='revert fix: XStr in detect_or_validate')
+mut('C10', 'grid', """        for val in value.values():
+            self._detect_or_validate(val)
+        self._row.insert(index, value)""", """        self._row.insert(index, value)""", name='insert skips validation')
+mut('C10', 'grid', "self.column = SortableDict(validate_fn=self._validate_column)", "self.column = SortableDict()", name='revert fix: column validator')
+mut('C10', 'grid', "            if self._version_given:", "            if not self._version_given:")
+mut('C10', 'grid', "        if self.nearest_version < version:", "        if self._version < version:")
+mut('C10', 'jsonparser', """    elif scalar == NA_STR:
+        if Version.nearest(version) < VER_3_0:
+            raise ValueError('NA is not supported in Haystack version %s' \\
+                             % version)
+        return NA""", """    elif scalar == NA_STR:
+        return NA""", name='revert fix: json reader NA gate')
+mut('C10', 'zincparser', "                      hs_remove, hs_bool]).setName('scalar')", "                      hs_remove, hs_bool, hs_list[VER_2_0]]).setName('scalar')", name='2.0 grammar gains lists')
+mut('C10', 'zincparser', "                      hs_date, hs_time, hs_coord, hs_number, hs_null, hs_marker,\n                      hs_remove, hs_bool]).setName('scalar')", "                      hs_date, hs_time, hs_coord, hs_number, hs_na, hs_null, hs_marker,\n                      hs_remove, hs_bool]).setName('scalar')", name='2.0 grammar gains NA')
+mut('C10', 'zincparser', "        nearest = Version.nearest(ver)\n        g = self._known_grammars[nearest]", "        nearest = VER_3_0 if ver > VER_2_0 else VER_2_0\n        g = self._known_grammars[nearest]")
+mut('C10', 'grid', "        self.metadata = MetadataObject(validate_fn=self._detect_or_validate)", "        self.metadata = MetadataObject()")
+mut('C10', 'zincdumper', "            raise ValueError('Project Haystack version %s ' \\\n                             'does not support lists' \\\n                             % version)", "            raise NotImplementedError('lists')")
+
 
 def run(selected):
     base_cache = {}
